@@ -35,13 +35,33 @@ let parse_fmt = function
 
 let parse_kvs n = List.init n (fun _ -> let k = strn () in let v = strn () in (k, v))
 
+(* per entry, in file order (reversed while parsing): the raw entry's body is chunked (suffix c of the scheme field) *)
+let chunked_flags : bool list ref = ref []
+
+(* gun options: suffix of the keep-alive field  <0|1>[:tok.tok...]  (harness/cmd/hC09/opts.go); auto-tag (g..), redirect (r) and
+   the http2 gun (2) have no counterpart in the model of Shoot: they never touch the request *)
+let parse_ka (s : string) : bool * shoot_opts * bool =
+  match String.split_on_char ':' s with
+  | [] -> failwith "ka"
+  | k :: rest ->
+      let ts = (match rest with [] | [""] -> [] | t :: _ -> String.split_on_char '.' t) in
+      let has t = List.mem t ts in
+      let filter = if has "aa" then 0 else if has "aw" then 1 else 2 in
+      (bool_of_field k,
+       { o_answlog = has "aa" || has "aw" || has "ae"; o_filter = n_of_int filter; o_dump = has "d"; o_trace = has "t"; o_debug = has "v" },
+       has "r")
+
 let parse_item () : item =
   match next () with
   | "H" -> let k = strn () in let v = strn () in IHdr (k, v)
   | "E" ->
       let m = strn () in
       let u = strn () in
-      let sc = (match next () with "h" -> n_of_int 1 | "s" -> n_of_int 2 | _ -> n_of_int 0) in
+      let scf = next () in
+      let chunked = String.length scf > 0 && scf.[String.length scf - 1] = 'c' in
+      chunked_flags := chunked :: !chunked_flags;
+      let sc = (match (if chunked then String.sub scf 0 (String.length scf - 1) else scf) with
+                | "h" -> n_of_int 1 | "s" -> n_of_int 2 | _ -> n_of_int 0) in
       let h = strn () in
       let _tag = next () in
       let b = strn () in
@@ -98,7 +118,7 @@ let predict (c : string) (obs : string) : string * string * bool =
   | "wire" ->
       let f = parse_fmt (next ()) in
       let ssl = bool_of_field (next ()) in
-      let ka = bool_of_field (next ()) in
+      let (ka, opts, _redirect) = parse_ka (next ()) in
       let (inst, sc) = (match String.split_on_char ':' (next ()) with
                         | [i] -> (int_of_string i, parse_sc "n")
                         | i :: s :: _ -> (int_of_string i, parse_sc s)
@@ -110,9 +130,13 @@ let predict (c : string) (obs : string) : string * string * bool =
       let late = bool_of_field (next ()) in
       let pause = num () in
       let late = late && pause = 0 in
-      let passes = (let p = num () in if p < 1 then 1 else p) in
+      let passes = (let pf = next () in
+                    let pf = if String.length pf > 0 && pf.[String.length pf - 1] = 'p' then String.sub pf 0 (String.length pf - 1) else pf in
+                    let p = int_of_string pf in if p < 1 then 1 else p) in
       let cfg = parse_kvs (num ()) in
+      chunked_flags := [];
       let items = List.init (num ()) (fun _ -> parse_item ()) in
+      let chunked = List.rev !chunked_flags in
       let gk k = { g_ssl = ssl; g_target_host = bytes_of_string (if tgt = "name" then "localhost" else "127.0.0.1");
                    g_resolved = bytes_of_string ("T" ^ string_of_int k) } in
       (* every pool delivers the file [passes] times *)
@@ -121,7 +145,10 @@ let predict (c : string) (obs : string) : string * string * bool =
       let of_wire (w : wire) : rc =
         { srv = string_of_bytes w.w_addr; tls = field_of_bool w.w_tls; meth = hx w.w_method;
           uri = hx w.w_uri; host = hx w.w_host; body = hx w.w_body; hdrs = rc_of_hmap w.w_hdrs } in
-      let model = List.concat_map (fun k -> List.map (fun r -> of_wire (on_wire (gk k) r)) (file_requests canon_mime f cfg [] items)) ks in
+      (* code-shaped model: Shoot under the case's gun options (Model/HttpShoot.v); a broken request never arrives *)
+      let model = List.concat_map (fun k ->
+          List.concat (List.map2 (fun r ch -> match shoot_wire opts (gk k) f ch r with Some w -> [of_wire w] | None -> [])
+                         (file_requests canon_mime f cfg [] items) chunked)) ks in
       (* specification, entry by entry with the in-file headers in scope *)
       let sp = List.concat_map (fun k -> List.map of_wire (file_spec canon_mime f cfg [] (gk k) items)) ks in
       (* canonical keys that both the entry (any entry of the file / in-file header) and the configuration define *)
@@ -164,7 +191,8 @@ let predict (c : string) (obs : string) : string * string * bool =
         else match parsed with
           | None -> "BAD:unparsable-observation"
           | Some (run, _conn, _cl, n, recs) ->
-              if run <> "ok" then "BAD:run-failed"
+              if String.length run >= 9 && String.sub run 0 9 = "followups" then "BAD:redirect-followups"
+              else if run <> "ok" then "BAD:run-failed"
               else if n <> List.length sp then "BAD:request-count"
               else begin
                 let so = List.sort (fun a b -> compare (show a) (show b)) recs
@@ -189,7 +217,7 @@ let predict (c : string) (obs : string) : string * string * bool =
       (pred, verdict, nontrivial)
   | "hist" ->
       (* scripted history on the real guns: exact comparison with the transport model t_run, judged by hist_ok / clients_ok *)
-      let ka = bool_of_field (next ()) in
+      let (ka, _opts, _) = parse_ka (next ()) in
       let sc = parse_sc (next ()) in
       let mi = eff_max_idle (z_of_int (num ())) in
       let _size = next () in
